@@ -116,11 +116,6 @@ func (l *Ledger) SortedHashes() []chainhash.Hash {
 	return hs
 }
 
-func sortHashes(hs []chainhash.Hash) []chainhash.Hash {
-	sort.Slice(hs, func(i, j int) bool { return hashLess(&hs[i], &hs[j]) })
-	return hs
-}
-
 // CreditIndexes returns the credited output indexes of t in ascending order.
 func (t *Tx) CreditIndexes() []uint32 {
 	ix := make([]uint32, 0, len(t.Credits))
@@ -890,6 +885,3 @@ func (l *Ledger) Digest() uint64 {
 	}
 	return f.Sum64()
 }
-
-// sortHashes is kept for callers that build hash lists themselves.
-var _ = sortHashes
